@@ -240,11 +240,13 @@ def run_hand(case, rec=None):
     for name, cls_ in (('generated', gen), ('hand', hand)):
         first = wbk.Executor().set_executed_class(class_object=cls_)
         second = wbk.Executor().set_executed_class(class_object=cls_)
-        wbk.outcome(lambda: first.set_cells([wbk.Cell('S', 'A', '1', 1000), wbk.Cell('S', 'A', '2', 'changed'), wbk.Cell('S', 'D', '1', -5)]))
+        wbk.outcome(lambda: first.set_cells([wbk.Cell('S', 'A', '1', 1000), wbk.Cell('S', 'A', '2', 'changed'), wbk.Cell('S', 'D', '1', -5),
+                                             wbk.Cell('S', 'B', '1', None), wbk.Cell('S', 'A', '3', None), wbk.Cell('S', 'E', '1', 0), wbk.Cell('S', 'B', '2', '')]))
         out = []
         for t, a in zip(texts, addrs):
             c, r = wbk.split_a1(a)
-            wbk.outcome(lambda: first.get_cell(wbk.Cell('S', wbk.get_column_letter(c), str(r))).value)
+            # what the executor with the overrides reports (cells given without a value among them) is compared between the classes too
+            out.append(outcome_norm(wbk.outcome(lambda: first.get_cell(wbk.Cell('S', wbk.get_column_letter(c), str(r))).value)))
             out.append(outcome_norm(wbk.outcome(lambda: second.get_cell(wbk.Cell('S', wbk.get_column_letter(c), str(r))).value)))
         out.append(outcome_norm(wbk.outcome(lambda: second.get_cell(wbk.Cell('S', 'A', '1')).value)))
         seen[name] = out
@@ -293,7 +295,7 @@ def strategies():
                        st.integers(-10 ** 6, 10 ** 6).map(lambda k: k / 1000))
     nums = st.one_of(ints, ints, floats)
     words = st.sampled_from(['', 'a', 'abc', 'Apple', 'apple', 'pear', 'a*c', 'a?c', 'a~*c', '*', '?', '~', 'x[y]', '(c?', 'a.b', 'a|b', '12', '1.5', '1,5', '007',
-                             '1 234,56', '10 000', '50%', '1e3', '40817810099910004312', '40817810099910004313', '12345678901234567', '12345678901234568', '2.5e-1', 'TRUE', 'nan', 'inf', '#N/A', '#VALUE!', '2024-02-29', '29.02.2024', '12:30', 'Hello World', 'ß', 'x' * 40])
+                             '1 234,56', '10 000', '50%', '1e3', '40817810099910004312', '40817810099910004313', '12345678901234567', '12345678901234568', '2.5e-1', 'TRUE', 'nan', 'inf', '#N/A', '#VALUE!', '2024-02-29', '29.02.2024', '12:30', 'Hello World', 'ß', 'straße', 'STRASSE', 'Straße', 'strasse', 'ﬁn', 'FIN', 'fin', 'İ', 'i̇', 'ǅ', 'ǆ', 'x' * 40])
     dates = st.sampled_from([{'$dt': '2024-02-29T00:00:00'}, {'$dt': '2020-01-31T00:00:00'}, {'$dt': '2023-12-15T10:30:00'}, {'$dt': '2021-03-15T00:00:00'},
                              {'$d': '2022-11-30'}, {'$dt': '1999-12-31T23:59:59'}, {'$dt': '2023-01-31T00:00:00'}, {'$dt': '2023-02-28T00:00:00'}])
     bools = st.booleans()
@@ -333,7 +335,10 @@ def strategies():
         '_only_numeric_list': T(flat, bools), '_only_bool_list': T(flat), '_only_datetime_list': T(flat),
         '_regexp': T(words), '_binary_search': T(st.one_of(sortedcol.map(lambda c: [r[0] for r in c]), flat), scalar, bools),
         '_sum': T(numlist), '_average': T(numlist), '_count': T(st.lists(matrix, max_size=2), flat, flat),
-        '_match': T(scalar, st.one_of(col, sortedcol), st.sampled_from([0, 1, -1, 2])),
+        '_match': st.one_of(T(scalar, st.one_of(col, sortedcol), st.sampled_from([0, 1, -1, 2])),
+                            T(st.sampled_from(['straße', 'STRASSE', 'strasse', 'ﬁn', 'fin', 'FIN', 'Apfel']),
+                              st.sampled_from([[['Apfel'], ['STRASSE'], ['Zebra']], [['apfel'], ['straße'], ['zebra']], [['fin'], ['ﬁn'], ['FIN']], [['Zebra'], ['Straße'], ['Apfel']]]),
+                              st.sampled_from([0, 1, -1]))),
         '_xmatch': T(scalar, st.one_of(col, sortedcol), st.sampled_from([0, 1, -1, 2]), st.sampled_from([1, -1, 2, -2])),
         '_vlookup': T(scalar, st.one_of(matrix, sortedcol.map(lambda c: [r + [r[0] * 10, 'v'] for r in c])), st.integers(0, 5), st.one_of(bools, st.integers(0, 1))),
         '_sum_if': st.one_of(same_len_pair(2).flatmap(lambda p: T(st.just(p[0]), crit, st.just(p[1]))), T(col, crit, st.one_of(col, st.none()))),
@@ -348,6 +353,8 @@ def strategies():
         '_mid': T(st.one_of(words, nums, blank), small, small),
         '_address': st.one_of(T(st.integers(0, 30), st.sampled_from([1, 2, 26, 27, 52, 53, 702, 703, 16384, 0])),
                               T(st.integers(1, 30), st.integers(1, 800), st.integers(0, 5)), T(st.integers(1, 9), st.integers(1, 9), st.integers(1, 4), bools),
+                              T(st.integers(1, 9), st.integers(1, 9), st.one_of(st.integers(1, 4), st.sampled_from(['1', '2', '3', '4'])),
+                                st.sampled_from([0, 1, True, False, None, 'FALSE', 'TRUE', '0', '1', 'False', 'True', 0.0, '']), words),
                               T(st.integers(1, 9), st.integers(1, 9), st.integers(1, 4), bools, words)),
         '_or': T(st.lists(st.one_of(bools, nums, blank), max_size=5)), '_and': T(st.lists(st.one_of(bools, nums, blank), max_size=5)),
         '_min': T(numlist), '_max': T(numlist),
